@@ -39,7 +39,9 @@ type rdWorld struct {
 	Segs [][3]int `json:"segs"`
 }
 
-func (w rdWorld) key() string { return w.Kind + "|" + strings.Join(w.Src, "") + "|" + fmt.Sprint(w.Segs) }
+func (w rdWorld) key() string {
+	return w.Kind + "|" + strings.Join(w.Src, "") + "|" + fmt.Sprint(w.Segs)
+}
 func (w rdWorld) bytes() []byte {
 	return []byte(strings.Join(w.Src, ""))
 }
